@@ -209,8 +209,14 @@ func (t *TxWatcher) AddWaitForConfirmationTx(swapId string, txId string, _ uint3
 				}
 
 				// We add a +1 as the confirmation block height is the height of
-				// first confirmation.
-				confs := currentHeight - conf.blockHeight + 1
+				// first confirmation. The height returned by GetInfo can be
+				// behind the block that the chain notifier reported. In this
+				// case the tx has no confirmations yet on our view of the
+				// chain, the subtraction must not wrap around.
+				var confs uint32
+				if currentHeight >= conf.blockHeight {
+					confs = currentHeight - conf.blockHeight + 1
+				}
 				if confs >= onchain.BitcoinCsvSafetyLimit {
 					// We are already above half of the csv limit here, it is
 					// unsafe to pay for the invoice now.
@@ -336,8 +342,11 @@ func (t *TxWatcher) AddWaitForCsvTx(swapId string, txId string, vout uint32, hei
 
 					// We add a +1 as the confirmation block height is the height of
 					// first confirmation. If the current confirmations are past the
-					// csv limit we call back.
-					if be.Height-conf.blockHeight+1 >= onchain.BitcoinCsv {
+					// csv limit we call back. A block below the confirmation
+					// height adds no confirmations, the subtraction must not
+					// wrap around.
+					if be.Height >= conf.blockHeight &&
+						be.Height-conf.blockHeight+1 >= onchain.BitcoinCsv {
 						log.Infof("[TxWatcher] Wait for csv limit on swap %s: Csv passed limit, call csvPassedCallback", swapId)
 						if t.csvPassedCallback == nil {
 							log.Infof("[TxWatcher] Wait for csv limit on swap %s: confirmationCallback is nil", swapId)
